@@ -809,6 +809,12 @@ def r13_3(ctx: Ctx):
                     and isinstance(st.targets[0].value, ast.Name) and st.targets[0].value.id == seq \
                     and const_int(st.targets[0].slice) == slot:
                 expr, site = st.value, st
+        # the same slot assigned in both branches of one test: read as the conditional expression it is
+        for st in walk_no_nested(f.node):
+            if isinstance(st, ast.If) and len(st.body) == 1 and len(st.orelse) == 1 and all(
+                    isinstance(b_, ast.Assign) and isinstance(b_.targets[0], ast.Subscript) and isinstance(b_.targets[0].value, ast.Name)
+                    and b_.targets[0].value.id == seq and const_int(b_.targets[0].slice) == slot for b_ in (st.body[0], st.orelse[0])):
+                expr, site = ast.copy_location(ast.IfExp(st.test, st.body[0].value, st.orelse[0].value), st), st
         n += 1
         if expr is None:
             ctx.ob("R13.3", f, "slot %d of %s is formatted unwrapped" % (slot, seq), False,
